@@ -71,7 +71,7 @@ def run(ctx):
         live = ig.live_nodes()
         inst = L.short(fn)
         for a in L.call_nodes(ig, callee_re=r"^babylon::PageAllocator::allocate$", live=live):
-            if a.frame.id != 0:
+            if a.frame.owner_id != 0:
                 continue
             n1 += 1
             regs = []
@@ -90,11 +90,11 @@ def run(ctx):
                    "a page obtained from the page allocator can reach return without being stored into a page-array "
                    "slot: release() will never give it back", detail, site="%s@page" % inst)
         for u in L.call_nodes(ig, callee_re=r"^std::pmr::memory_resource::allocate$", live=live):
-            if u.frame.id != 0:
+            if u.frame.owner_id != 0:
                 continue
             n1b += 1
             rec = {}
-            for n in ig.ev_nodes(lambda n: n.id in live and n.ev["e"] == "asg" and n.ev.get("op") == "=" and n.frame.id == 0):
+            for n in ig.ev_nodes(lambda n: n.id in live and n.ev["e"] == "asg" and n.ev.get("op") == "=" and n.frame.owner_id == 0):
                 lhs = strip_cast(n.ev["lhs"])
                 if isinstance(lhs, dict) and lhs.get("k") == "f" and lhs.get("n") in ("page", "bytes", "alignment") and \
                         lhs.get("rec", "").endswith("OversizePage") and ig.path_exists(u, n) and \
